@@ -294,4 +294,40 @@ def rule_d(ctx: Ctx) -> None:
     ctx.explain('C07.d: the fixed-value report of XsdElement.raw_decode is guarded by a comparison of decoded values.')
 
 
-RULES = [rule_a, rule_b, rule_c, rule_d]
+def derived_ok(ctx: Ctx, rule: str) -> None:
+    """"Validly derived" (cos-st-derived-ok / cos-ct-derived-ok) climbs the chain of *base* types, accepts the special ur-types and a
+    member of a union - nothing else.  In particular the item type of a list is not an ancestor of the list."""
+    n = 0
+    for c in ctx.idx.classes.values():
+        if not c.module.name.startswith('xmlschema.validators'):
+            continue
+        f = c.methods.get('is_derived')
+        if f is None or isinstance(f.node, ast.Lambda):
+            continue
+        ctx.analysed(f.qualname)
+        g = cfg_of(ctx, f)
+        for r in g.nodes:
+            if not (r.kind == 'return' and r.ast.value is not None):
+                continue
+            v = r.ast.value
+            if isinstance(v, ast.Constant) and v.value is False:
+                continue
+            n += 1
+            gs = guards(ctx, f, r)
+            item = [t for t, lab in gs if lab == 'T' and 'item_type' in t]
+            item_val = 'item_type' in text(v)
+            ok = not item and not item_val
+            ctx.ob(rule, f'{c.name}.is_derived: `return {text(v)[:40]}` climbs through base types, ur-types or union members only', f.loc(r.ast), ok,
+                   '' if ok else f'accepted under `{(item or [text(v)])[0][:60]}`: a list type counts as derived from its item type - xsi:type="ListOfInt" is accepted on an '
+                   'element declared xs:int, and a simpleContent restriction may replace an xs:int content by a list of xs:int', key=f'{c.name}.is_derived|{text(v)[:40]}|{(sorted(t for t, l in gs if l == "T") or [""])[-1][:40]}',
+                   nontrivial=bool(item or item_val))
+    ctx.floor(rule, 'accepting exits of the is_derived implementations', n, 8)
+    ctx.explain(f'{rule}: every non-False return of the is_derived implementations of the validators: neither its value nor its path '
+                'condition mentions the item type of a list.')
+
+
+def rule_e(ctx: Ctx) -> None:
+    derived_ok(ctx, 'C07.e')
+
+
+RULES = [rule_a, rule_b, rule_c, rule_d, rule_e]
